@@ -447,6 +447,37 @@ def check_edgecells(ctx):
                                   % (edge, w, wf_, rtab[edge], rf_)), oid=edge)
 
 
+def check_landuse_order(ctx, rule='R-LUORDER'):
+    """the land-use writer emits its records in the order of a literal key list; the reader decides the style of the file from the
+    *first* record (its key must be a land-use category key) and names the records in the order land use, then the optional fields:
+    in the writer's list every land-use category key must come before every optional key"""
+    src = ctx.src
+    wm = src.mod(CAMX + 'landuse/Write.py')
+    rm = src.mod(CAMX + 'landuse/Memmap.py')
+    wfn = wm.func('ncf2landuse')
+    rfn = rm.func('landuse.__init__')
+    where = 'src/PseudoNetCDF/camxfiles/landuse Write.py vs Memmap.py'
+    # reader: keys accepted for the first record (constants compared with the first 8 characters) and the name tables of __addvars
+    first = [c.value.strip() for n in ast.walk(rfn) if isinstance(n, ast.Compare) and 'first_line' in norm(n.left) for c in n.comparators if isinstance(c, ast.Constant) and isinstance(c.value, str)]
+    av = rm.func('landuse.__addvars')
+    tables = [[const_str(e) for e in kw(c, 'names').elts] for c in ast.walk(av) if isinstance(c, ast.Call) and dotted(c.func) == 'dict' and kw(c, 'names') is not None
+              and isinstance(kw(c, 'names'), (ast.List, ast.Tuple))]
+    optional = sorted(set(n for t in tables for n in t[1:] if n))
+    lists = [n for n in ast.walk(wfn) if isinstance(n, (ast.List, ast.Tuple)) and len(n.elts) >= 3 and all(const_str(e) for e in n.elts) and set(const_str(e) for e in n.elts) & set(first + ['FLAND'])]
+    if not first or not optional or not lists:
+        ctx.undec(rule, 'record order', where, 'first-record keys %s, optional fields %s or the writer key list not found' % (first, optional))
+        return
+    keys = [const_str(e) for e in lists[0].elts]
+    cats = [k for k in keys if k in first or k == 'FLAND']
+    opts = [k for k in keys if k in optional]
+    late = [k for k in cats if any(keys.index(o) < keys.index(k) for o in opts)]
+    if late:
+        ctx.violation(Finding(rule, wm.relpath, 'ncf2landuse', api.stmt_of(lists[0]), 'the writer emits %s after the optional record(s) %s: a file whose land-use variable is named %s (the name the reader gives it) is written '
+                              'with an optional record first, and the reader, which tells the style of the file from the key of the first record, can no longer open it' % (late, opts, late[0])))
+    else:
+        ctx.ok(rule, 'record order', where, 'land-use category keys %s before optional %s' % (cats, opts))
+
+
 def check_byteorder(ctx, rule='R-BYTEORDER'):
     """every value a CAMx writer emits (tobytes / tofile) has its byte order fixed by the writer: the outermost conversion is
     astype('>..') / array(.., dtype='>..'), or the value is (an element of) a header array allocated with a big-endian record type.
@@ -849,6 +880,8 @@ def run(ctx):
         ctx.ok('R-KEYPARSE', 'key parse', wvf, '4 sample keys (species with 0-2 underscores) parsed exactly')
     check_edgecells(ctx)
     check_varorder(ctx)
+    ctx.rule('R-LUORDER', 'land-use writer: the land-use category record is written before the optional records (the reader tells the style from the first record)')
+    check_landuse_order(ctx)
     ctx.rule('R-BYTEORDER', 'every emitted value has a byte order fixed by the writer (big-endian conversion or big-endian header array), never that of an input attribute')
     ctx.floor('emission sites examined for byte order', check_byteorder(ctx), 40)
     check_landuse(ctx)
